@@ -190,7 +190,7 @@ EmaOK(before, new, after, mm, fmt) ==
       mx == BShl(BMax(b.m, n.m), 30)
   IN BLe(SDist(got, want), BAdd(URel(mx, 6, PBits(fmt)), BShrCeil(mx, 26)))
 NearS(x, y, fmt) == LET E == MinI2(x.e, y.e) a == ValAt(x, E) b == ValAt(y, E) IN BLe(SDist(a, b), URel(BMax(a.m, b.m), 2, PBits(fmt)))
-MomInt(mo) == IF mo = "m50" THEN 536870912 ELSE IF mo = "m25" THEN 268435456 ELSE 966367642   \* round(m * 2^30)
+MomInt(mo) == IF mo = "m50" THEN 536870912 ELSE IF mo = "m25" THEN 268435456 ELSE IF mo = "m0" THEN 0 ELSE 966367642   \* round(m * 2^30)
 ModuleIndex(e, name) == CHOOSE i \in 1..Len(e.mods) : e.mods[i].name = name
 \* the law for one observed update (only while exactly one context is open)
 ScaleLaw(before, new, after, count, mm, fmt) ==
